@@ -306,7 +306,9 @@ def _entry_points_agree(ctx: Ctx):
             return ("host", ctor)
         types_mod = ModuleRef("types", attrs={**{cn: ctor_for(cc) for cn, cc in t.classes.items() if cc.kind == "attrs"},
                                               "validators": ModuleRef("validators", interp=vit)})
-        it = Interp(name=h.rel, extra_globals={h.types_alias: types_mod, "validators": ModuleRef("validators", interp=vit)})
+        # the hook sees the module-level constants and helpers of _hooks.py
+        it = Interp(h.tree, name=h.rel, extra_globals={h.types_alias: types_mod, "validators": ModuleRef("validators", interp=vit)})
+        it.globals[h.types_alias] = types_mod
         lo, hi = {"integer": (-(2 ** 31), 2 ** 31 - 1), "uinteger": (0, 2 ** 31 - 1)}, None
         import itertools
         grids = []
